@@ -58,8 +58,32 @@ func Enc(s string) string {
 	return b.String()
 }
 
-// Dec is the inverse of Enc.
+// LongText is the length above which EncV abbreviates a value.
+const LongText = 300
+
+// EncV encodes a message or metadata VALUE: like Enc, but a value longer than LongText bytes is printed as
+// LONG<length>.<sum of its bytes mod 65521>.<Enc of its first 8 bytes>.
+func EncV(s string) string {
+	if len(s) <= LongText {
+		return Enc(s)
+	}
+	sum := 0
+	for i := 0; i < len(s); i++ {
+		sum = (sum + int(s[i])) % 65521
+	}
+	return "LONG" + strconv.Itoa(len(s)) + "." + strconv.Itoa(sum) + "." + Enc(s[:8])
+}
+
+// Dec is the inverse of Enc. A text of the form *<n>*<c> (a raw '*' is never produced by Enc) stands for n copies of the
+// character c: long values without long inputs.
 func Dec(s string) string {
+	if strings.HasPrefix(s, "*") {
+		if num, rest, ok := strings.Cut(s[1:], "*"); ok && len(rest) == 1 {
+			if n, err := strconv.Atoi(num); err == nil && n >= 0 && n <= 1<<22 {
+				return strings.Repeat(rest, n)
+			}
+		}
+	}
 	var b strings.Builder
 	for i := 0; i < len(s); i++ {
 		c := s[i]
@@ -142,7 +166,7 @@ func (s *Server) canonMsg(m proto.Message) string {
 		var txt string
 		switch fd.Kind() {
 		case protoreflect.StringKind:
-			txt = "s." + Enc(s.maskTokens(v.String()))
+			txt = "s." + EncV(s.maskTokens(v.String()))
 		case protoreflect.Int64Kind, protoreflect.Int32Kind, protoreflect.Sint64Kind, protoreflect.Sint32Kind:
 			txt = "n." + strconv.FormatInt(v.Int(), 10)
 		case protoreflect.Uint64Kind, protoreflect.Uint32Kind:
@@ -176,7 +200,7 @@ func (s *Server) canonMD(md metadata.MD) string {
 		}
 		enc := make([]string, len(vals))
 		for i, v := range vals {
-			enc[i] = Enc(v)
+			enc[i] = EncV(v)
 		}
 		parts = append(parts, Enc(k)+":"+strings.Join(enc, "&"))
 	}
@@ -200,6 +224,11 @@ func (s *Server) intercept(ctx context.Context, req any, info *grpc.UnaryServerI
 	s.mu.Lock()
 	s.calls = append(s.calls, c)
 	s.mu.Unlock()
+	// fault injection: a call carrying the metadata key x-fault with a gRPC status code number as its value is
+	// recorded and then refused with that status (the handler is not run)
+	if fc, ok := faultCode(ctx); ok {
+		return nil, status.Error(fc, "injected fault")
+	}
 	// The example service hands its live statistics maps to the Stats/Reset responses, which grpc marshals after
 	// the handler returned while other handlers update them (a race inside the TARGET, answered with code 500).
 	// Handlers are serialised and such responses copied so that the target's replies are deterministic.
@@ -210,6 +239,26 @@ func (s *Server) intercept(ctx context.Context, req any, info *grpc.UnaryServerI
 		resp = proto.Clone(pm)
 	}
 	return resp, err
+}
+
+// FaultKey is the metadata key whose value (a decimal gRPC status code number, 1 and up) makes the recording server refuse
+// the call with that status after recording it.
+const FaultKey = "x-fault"
+
+func faultCode(ctx context.Context) (codes.Code, bool) {
+	md, ok := metadata.FromIncomingContext(ctx)
+	if !ok {
+		return 0, false
+	}
+	vs := md.Get(FaultKey)
+	if len(vs) != 1 {
+		return 0, false
+	}
+	n, err := strconv.ParseUint(vs[0], 10, 8)
+	if err != nil || n == 0 || strconv.FormatUint(n, 10) != vs[0] {
+		return 0, false
+	}
+	return codes.Code(n), true
 }
 
 // Calls returns the calls recorded so far (arrival order).
